@@ -62,6 +62,7 @@ import types
 import unicodedata
 import uuid as _uuid
 
+import ro_calls as RO
 from common import impl_error
 
 _NOW = _time.monotonic  # the real clock (one stream replaces the functions of the `time` module by a fast-running clock)
@@ -3082,6 +3083,190 @@ def diversify(failures):
     return out
 
 
+# ------------------------------------------------------------------------------------------------
+# round 6: read-only calls interleaved into a history (harness/ro_calls.py).  An operation ("ro", call) is one observer-style call on
+# the storage, on a record (stored, or created earlier and no longer stored) or on a library object reachable from them: repr / str /
+# len / bool / == / hash / iteration / copy / reading every attribute, match_incoming / match_attr / match_ip_incoming / match_uuid
+# WITHOUT auto-create and with an empty patch, all(), Repeater.attr(key) (value None = "read only"), repeater_target_address(), and
+# whatever get_* / is_* / has_* / debug a change adds.  `call` is an entry of the catalogue or a number (that entry of the catalogue the
+# live objects offer now; the recorded history holds the call it became).  The same random history (preconditions kept) runs once
+# without and once with such calls in a fresh storage: each call must leave the deep picture of storage and records (order of the
+# registry, class and module data, the id counter) as it was; every operation's answer, len(), the final dump and a final sweep
+# through the whole catalogue must be identical; the model is driven with the history without the calls.
+RO_POOLS = {
+    "address": DEFAULT_POOL["addrs"] + [("10.0.0.77", 1), ("", 0)], "ip": ["10.0.0.1", "10.0.0.2", "10.0.0.3", "", "10.0.0.77"],
+    "uuid": [_uuid.UUID(int=i) for i in (0, 1, 2, 3, 99)], "attr_name": FIELDS + ["nope"], "match_value": DEFAULT_POOL["vals"][:12] + DEFAULT_POOL["addrs"][:3],
+    "key": DEFAULT_POOL["dyn"] + ["nope"], "value": [None], "patch": [{}], "msg": ["status"], "exc": [None],
+}
+
+
+def ro_roots(sut):
+    return {"storage": sut.storage, "created": list(sut.created)}
+
+
+def ro_apply(sut, op, verdicts, count):
+    """performs ("ro", call); returns the operation as it ran (the call a number became)"""
+    import random
+
+    spec = op[1]
+    roots = ro_roots(sut)
+    if isinstance(spec, int):
+        cat = RO.all_specs(roots, RO_POOLS, random.Random(spec), cap=8)
+        spec = cat[spec % len(cat)]
+    spec = list(spec)
+    try:
+        obj = RO.resolve(spec[0], roots)
+    except Exception:  # noqa: that object does not exist in this state
+        count("read-only-call:no-such-object")
+        return ("ro", spec)
+    text = RO.spec_text(spec)
+    s0 = RO.snapshot(roots, [sut.uuid_next])
+    n0 = len(sut.storage)
+    answer, _ = RO.perform(obj, spec, other=sut.created[-1] if sut.created else None)
+    s1 = RO.snapshot(roots, [sut.uuid_next])
+    count("read-only-call:" + (spec[2] if spec[1] == "proto" else "call:" + spec[2]))
+    count("read-only-call-answer:" + answer)
+    if s0 != s1 or len(sut.storage) != n0:
+        verdicts.append((f"the read-only call {text} (answer: {answer}) changed the storage / a record", "nothing changes", RO.first_diff(s0, s1) or f"len {n0} -> {len(sut.storage)}"))
+    return ("ro", spec)
+
+
+def ro_run(ops, count=lambda *a: None, generate=None):
+    """one history on a fresh storage: (pairs, final sweep, verdicts of the calls, the history as it ran, inside the model?).
+    `generate` = (rng, length, pool): the history is drawn while it runs (random_op looks at the live storage)"""
+    sut = Sut()
+    saved_pool, _POOL[0] = _POOL[0], None
+    try:
+        local, verdicts, ran = [("reset", "ok")], [], []
+        in_model = True
+        todo = list(ops)
+        while True:
+            if generate is not None:
+                rng, length, pool = generate
+                if len(ran) >= length:
+                    break
+                op = random_op(rng, sut, "ok", pool)
+                if violates_pre(sut, op):
+                    continue
+            else:
+                if not todo:
+                    break
+                op = todo.pop(0)
+                if op[0] != "ro":
+                    op = resolve(sut, op)
+                    if op is None or violates_pre(sut, op):
+                        return None  # (a shortened history that left the preconditions)
+            if op[0] == "ro":
+                ran.append(ro_apply(sut, op, verdicts, count))
+                continue
+            ran.append(op)
+            line, out, raw = sut.apply(op)
+            in_model = in_model and modelled(line)
+            local.append((line, out))
+            count(f"op:{op[0]}")
+        local.append(("dump", sut.dump()))
+        roots = ro_roots(sut)
+        n0 = len(sut.storage)
+        final, specs, changed = RO.checked_sweep(roots, RO_POOLS, 5 + sum(1 for o in ran if o[0] != "ro"), lambda: [sut.uuid_next])
+        if not changed and len(sut.storage) != n0:
+            changed = f"len {n0} -> {len(sut.storage)}"
+        if changed:
+            # the sweep made every call of the catalogue: as explicit operations they are checked one by one
+            verdicts.append(("the final look through every observer-style call changed the storage / a record", "nothing changes", changed))
+            ran += [("ro", sp) for sp in specs]
+        return local, final, verdicts, ran, in_model
+    finally:
+        _POOL[0] = saved_pool
+        sut.close()
+
+
+def ro_verdicts(plain, with_calls, count=lambda *a: None, sweep=True):
+    a = ro_run(plain)
+    b = ro_run(with_calls, count)
+    if a is None or b is None:
+        return [], None, None, False
+    pa, fa, _, _, _ = a
+    pb, fb, out, ran, in_model = b
+    out = [v for v in out if sweep or not v[0].startswith("the final look")]
+    xa, xb = [x[1] for x in pa], [x[1] for x in pb]
+    if xa != xb:
+        d = next((i for i, (x, y) in enumerate(zip(xa, xb)) if x != y), min(len(xa), len(xb)))
+        out.append((f"operations are answered differently when read-only calls are made in between (first difference at operation {d}: {pa[d][0][:70] if d < len(pa) else 'end'})",
+                    xa[d][:300] if d < len(xa) else None, xb[d][:300] if d < len(xb) else None))
+    if fa != fb:
+        out.append(("after read-only calls were made in between, the final state / what the observers answer at the end differs from the run without them",
+                    "as without the calls", RO.first_diff(fa, fb)))
+    return out, pb, ran, in_model
+
+
+def ro_json(ops):
+    return [["ro", json.loads(json.dumps(o[1]))] if o[0] == "ro" else op_json(o) for o in ops]
+
+
+def ro_unjson(hist):
+    return [("ro", o[1]) if o[0] == "ro" else op_unjson(o) for o in hist]
+
+
+def run_read_only(ctx, pairs):
+    import random
+
+    rng = random.Random(f"C20:ro:{ctx.seed}")
+    shrunk = 0
+    for i in range(160 if not ctx.thorough() else 1500):
+        enough(ctx)
+        length = rng.choice([3, 6, 12, 30]) if i % 6 else 80
+        pool = DEFAULT_POOL if i % 3 else dict(DEFAULT_POOL, dyn=list(rng.choice(KEY_FAMILIES)))
+        r = ro_run([], generate=(rng, length, pool))
+        plain = r[3]
+        with_calls, made = [], 0
+        for k, op in enumerate(plain):
+            with_calls.append(op)
+            if rng.random() < 0.25 or (made == 0 and k >= len(plain) // 2):
+                for _ in range(rng.randrange(1, 3)):
+                    with_calls.append(("ro", rng.getrandbits(30)))
+                    made += 1
+        verdicts, pb, ran, in_model = ro_verdicts(plain, with_calls, ctx.count)
+        ctx.case(("read-only", i, str(plain[:8]), made), sample={"class": "read-only calls interleaved", "operations": len(plain), "read_only_calls": made} if i == 1 else None)
+        ctx.count("read-only:histories")
+        ctx.count("read-only:calls", made)
+        if not verdicts:
+            if pb is not None and in_model:
+                pairs.extend(pb)  # the model answers the history without the calls; the implementation answered it with them
+            if len(pairs) > 200000:
+                flush(ctx, "storage.read-only", pairs)
+            continue
+        ctx.count("read-only:failing-histories")
+        if shrunk < 4:
+            shrunk += 1
+
+            def test(cand):
+                return any(o[0] == "ro" for o in cand) and bool(ro_verdicts([o for o in cand if o[0] != "ro"], cand, sweep=False)[0])
+
+            small = RO.ddmin(ran, test, max_runs=150)
+            again, _, ran2, _ = ro_verdicts([o for o in small if o[0] != "ro"], small, sweep=False)
+            if again:
+                verdicts, ran = again, ran2
+                ctx.count("read-only:failing-history-shortened")
+        elif shrunk >= 24:
+            continue
+        else:
+            shrunk += 1
+        for what, exp, act in verdicts[:2]:
+            ctx.fail("read-only-call", {"history": ro_json(ran), "stream": "read-only"}, what + f" [history of {len(ran)} operations]", expected=exp, actual=act)
+    flush(ctx, "storage.read-only", pairs)
+    sk = []
+    sut = Sut()
+    try:
+        sut.storage.match_incoming(A0, True)
+        RO.all_specs({"storage": sut.storage}, RO_POOLS, skipped=sk)
+    finally:
+        sut.close()
+    for what in sorted(set(sk)):
+        ctx.count("read-only:not-called:" + what[:110])
+    if RO.no_exclusions():
+        ctx.notes.append("VERIF_RO_NOEXCLUDE is set: the reviewed exclusions of harness/ro_calls.py are void in this run (review mode)")
+
+
 def flush(ctx, component, pairs):
     if pairs and not ctx.search_only and ctx.driver_ok:
         ctx.correspond(component, pairs)
@@ -3147,6 +3332,7 @@ def _run(ctx):
         "attr() read back through the public API after every operation), stream 'cross' crosses them and is checked for "
         "model = code and unique dictionary keys. A history is distinct by its operation list; non-trivial = at least one "
         "record exists"
+        " ROUND 6, READ-ONLY CALLS: observer-style calls found by introspection on the live objects (repr / str / len / bool / == / hash / copy / every attribute, debug(), get_* / is_* / has_* / match_* without auto-create, the log helpers, on every library object reachable) are interleaved into histories: the same history runs without and with them in fresh objects; each call must leave the deep picture of the objects, their class / module data and the stubs' counters unchanged, every answer, the final state and a final sweep through the whole catalogue (made, and itself checked, at the end of every such history) must be identical, and the model is driven with the history without the calls; reviewed exclusions (calls that advance by design) are listed in harness/ro_calls.py EXCLUDED. "
     )
     ctx.trusted_base += [
         "Lean 4.33 kernel",
@@ -3342,6 +3528,9 @@ def _run(ctx):
             flush(ctx, "storage.random", pairs)
     flush(ctx, "storage.random", pairs)
     mark("random")
+    # ---- round 6: read-only calls interleaved (a fixed share, own random stream)
+    run_read_only(ctx, pairs)
+    mark("read-only")
     ctx.exhaustive = False
 
 
@@ -3377,6 +3566,17 @@ def _replay(obj):
         for k in c.failures:
             print("property check:", (k["kind"], k["what"], k["expected"], k["actual"]))
         return 1 if c.failures else 0
+    if inp.get("stream") == "read-only":
+        hist = ro_unjson(inp["history"])
+        for o in hist:
+            print("read-only call:" if o[0] == "ro" else "operation:     ", RO.spec_text(o[1]) if o[0] == "ro" else op_json(o))
+        verdicts, pb, _, _ = ro_verdicts([o for o in hist if o[0] != "ro"], hist)
+        for line, out in pb or []:
+            print(f"implementation  {line[:90]:90s} -> {out[:300]}")
+        for v in verdicts:
+            print("property check:", v)
+        print("expected:", f.get("expected"), "actual:", f.get("actual"))
+        return 1 if verdicts else 0
     if inp.get("stream") == "scale":
         verbose = []
         failure = run_scale(None, inp["shape"], inp["n"], inp["salt"], [], False, upto=inp.get("upto"), verbose=verbose)
